@@ -188,6 +188,14 @@ pub enum CapOp {
     Reset { s: usize, code: u32 },
     Drop { s: usize },
     Yield(usize),
+    /// the program stops here and goes idle for good: the streams stay open, their handles alive (kept until the
+    /// case is torn down), nothing is sent or asked any more
+    StopHere,
+}
+
+thread_local! {
+    /// handles an application keeps alive while it does nothing at all (dropped when the case is torn down)
+    static HELD: RefCell<Vec<Box<dyn std::any::Any>>> = RefCell::new(Vec::new());
 }
 
 #[derive(Clone, Debug, Serialize, Deserialize)]
@@ -1382,6 +1390,13 @@ async fn cap_app(prog: CapProgram, handles: Vec<server::SendResponse<SegBuf>>, l
                     }
                 }
             }
+            CapOp::StopHere => {
+                let all: Vec<Option<SendStream<SegBuf>>> = streams.drain(..).collect();
+                HELD.with(|h| h.borrow_mut().push(Box::new(all)));
+                log.push(Side::Server, 0, Api::ConnOp { op: "cap-app idle for good".into() });
+                log.push(Side::Server, 0, Api::ConnOp { op: "cap-app done".into() });
+                return;
+            }
             CapOp::Reset { s, code } => {
                 if let Some(slot) = streams.get_mut(*s) {
                     if let Some(mut st) = slot.take() {
@@ -1796,15 +1811,18 @@ pub fn run_sim_cap(case: &PairCase, raw: Option<(Side, Rc<crate::sim_raw::RawSpe
 /// recorded like any other panic.
 fn teardown_all(mut exec: Exec, ctx: Ctx, run: &mut PairRun) {
     exec.teardown();
+    let held: Vec<Box<dyn std::any::Any>> = HELD.with(|h| std::mem::take(&mut *h.borrow_mut()));
     if run.panic.is_some() || exec.any_panic().is_some() {
         if run.panic.is_none() {
             run.panic = exec.any_panic();
         }
+        std::mem::forget(held);
         std::mem::forget(ctx);
         std::mem::forget(exec);
         return;
     }
     let r = std::panic::catch_unwind(std::panic::AssertUnwindSafe(move || {
+        drop(held);
         drop(ctx);
         drop(exec);
     }));
